@@ -39,7 +39,7 @@ EXPLANATION = ("Each case is a complete command history executed on two ArrayBui
                "snapshots / mid_snapshot (taken inside an open structure), growth (a buffer outgrew `initial`).")
 
 ARR_CFG = gen.Cfg(max_depth=2, leaf_dtypes=("int64", "float64", "bool", "int32"), max_len=4, max_list=3, unknown=False, regular=True,
-                  numpy_nd=False, nan=False)
+                  numpy_nd=False, nan=False, zero_field_records=False)      # (zero-field records: known finding zero_field_records of C02)
 LB_CFG = gen.Cfg(max_depth=3, leaf_dtypes=("int64", "float64", "bool", "complex128"), unions=True, options=True, strings=True,
                  unknown=False, regular=True, nan=True, extremes=True, complex_=True, zero_field_records=False, named_records=True)
 
@@ -188,6 +188,35 @@ def _closing(model):
 
 
 @st.composite
+def byref_array(draw):
+    """an array for append/extend.  The builder looks only at the class of the top node (Indexed{32,U32,64}Builder,
+    IndexedIO{32,64}Builder, IndexedGenericBuilder), so the top node varies and everything below it is in the canonical
+    encoding: merging exotic encodings of nested nodes into the builder's own data is Content::merge (property C08)."""
+    T = draw(gen.types(ARR_CFG))
+    vals = draw(gen.values(T, ARR_CFG))
+    n = len(vals)
+    k = draw(st.integers(0, 11))
+    d = gen.canonical(T, vals)
+    if T[0] == "option":
+        if k < 4:
+            d["class"] = "IndexedOptionArray32"
+        return d
+    if k < 6:
+        return d
+    if k < 9:
+        p = list(draw(st.permutations(list(range(n)))))
+        cv = [None] * n
+        for i in range(n):
+            cv[p[i]] = vals[i]
+        return {"class": ("IndexedArray32", "IndexedArrayU32", "IndexedArray64")[k - 6], "index": p, "content": gen.canonical(T, cv)}
+    if k == 9:
+        return {"class": "UnmaskedArray", "content": d}
+    if k == 10:
+        return {"class": "ByteMaskedArray", "mask": [1] * n, "valid_when": True, "content": d}
+    return d
+
+
+@st.composite
 def ab_history(draw, max_steps):
     case = {"kind": "ab",
             "initial": draw(st.sampled_from([1, 2, 3, 8])), "resize": draw(st.sampled_from([1.1, 1.5, 2.0])),
@@ -196,9 +225,7 @@ def ab_history(draw, max_steps):
     arrays = []
     if draw(st.integers(0, 9)) < 4:
         for _ in range(draw(st.integers(1, 2))):
-            T = draw(gen.types(ARR_CFG))
-            vals = draw(gen.values(T, ARR_CFG))
-            arrays.append(draw(gen.encode(T, vals, ARR_CFG)))
+            arrays.append(draw(byref_array()))
     case["arrays"] = arrays
     model = B.BuilderModel([M.decode(d)[1] for d in arrays])
     max_depth = draw(st.sampled_from([1, 2, 3, 3, 4]))
@@ -636,8 +663,18 @@ def run_lb(case):
     err = snap.validityerror()
     if err is not None:
         raise Violation("lb_invalid_snapshot|" + _lb_shape(T), "LayoutBuilder snapshot is invalid: " + err[:300], observed=_try_describe(snap))
-    d = D.describe(snap)
-    Tobs, obs = M.decode(d)
+    try:
+        d = D.describe(snap)
+    except ValueError as e:
+        if "negative dimensions" not in str(e):
+            raise
+        # a node with a negative length below a node of length 0 (the validity check does not descend there)
+        raise Violation("lb_invalid_snapshot|" + _lb_shape(T), "LayoutBuilder snapshot contains an index of negative length", observed=str(e)[:200])
+    try:
+        Tobs, obs = M.decode(d)
+    except M.Invalid as e:
+        # structurally ill-formed although validityerror() is silent (it does not look below a node of length 0)
+        raise Violation("lb_invalid_snapshot|" + _lb_shape(T), "LayoutBuilder snapshot is not a well-formed array: %s" % (str(e)[:200],), observed=d)
     if not M.same_value(vals, obs):
         raise Violation("lb_value|" + _lb_shape(T), "LayoutBuilder snapshot differs from the data it was given", expected=M.jsonable(vals), observed=M.jsonable(obs))
     return {"tags": ["lb", "lb:" + T[0]], "counts": {"lb_commands": len(cmds)}, "nontrivial": len(cmds) > len(vals) > 0, "sample_class": "layoutbuilder"}
